@@ -49,6 +49,9 @@ def generate(seed, tier):
     for msp in range(-30, 30):
         for d0 in "1248":
             yield req(d0 + "0000000000000000000001", -msp + 22)
+    # the systematic neighbourhood of the powers of two (numbcommon.pow2_neighbourhood): 2^k +- f*ulp for f around 1/2, 3/4, 1 - eps
+    for d, s, _ in nc.pow2_neighbourhood(2):
+        yield req(d, s)
     for i in range(n):
         c = r.random()
         if c < 0.25:
